@@ -102,6 +102,8 @@ pub struct FaultReader {
     /// `Ok(0)` was returned for a non-empty buffer
     pub eof_hit: bool,
     pub calls: u64,
+    /// do not keep a log (C07: the reader must not allocate while the heap is being measured)
+    pub quiet: bool,
 }
 impl FaultReader {
     pub fn new(pos: u64, len: u64, fault: Option<u64>, clamp: bool, chunk: Chunk, seed: u64) -> Self {
@@ -116,10 +118,11 @@ impl FaultReader {
             reported_error: false,
             eof_hit: false,
             calls: 0,
+            quiet: false,
         }
     }
     fn push(&mut self, kind: u8, amt: i128) {
-        if amt == 0 {
+        if amt == 0 || self.quiet {
             return;
         }
         if let Some(last) = self.log.last_mut() {
